@@ -199,7 +199,28 @@ static void inj_case(int id, long k, int burst, uint64_t seed) {
 		if (w_injected(id)) { st_inj_fired++; st_by_kind[id]++; }
 		w_reset();
 		if (!s) viol("failed", "p_semaphore_new failed when sem_open was interrupted at call %ld (x%d): %s", k, burst, err ? p_error_get_message(err) : "");
-		else { int v = semvalue(name); if (v != 3) viol("wrong-value", "new semaphore has value %d, expected 3", v); p_semaphore_take_ownership(s); p_semaphore_free(s); }
+		else {
+			/* the name now exists: a second opener (OPEN mode) and a creator over the existing name (CREATE mode) take the
+			 * EEXIST path with its own sem_open call; both must survive an interruption at any of their calls too */
+			PSemaphore *o, *c; int v = semvalue(name);
+			if (v != 3) viol("wrong-value", "new semaphore has value %d, expected 3", v);
+			cur = "p_semaphore_new(open-existing)";
+			w_plan(id, WM_AT, k, burst, WK_EINTR, seed);
+			o = p_semaphore_new(name, 9, P_SEM_ACCESS_OPEN, &err);
+			if (w_injected(id)) { st_inj_fired++; st_by_kind[id]++; }
+			w_reset();
+			if (!o) viol("failed", "p_semaphore_new(OPEN) on an existing semaphore failed when sem_open was interrupted at call %ld (x%d): %s", k, burst, err ? p_error_get_message(err) : "");
+			else { v = semvalue(name); if (v != 3) viol("wrong-value", "opening an existing semaphore changed its value to %d, expected 3", v); p_semaphore_free(o); }
+			p_error_free(err); err = NULL;
+			cur = "p_semaphore_new(create-over-existing)";
+			w_plan(id, WM_AT, k, burst, WK_EINTR, seed);
+			c = p_semaphore_new(name, 5, P_SEM_ACCESS_CREATE, &err);
+			if (w_injected(id)) { st_inj_fired++; st_by_kind[id]++; }
+			w_reset();
+			if (!c) viol("failed", "p_semaphore_new(CREATE) over an existing semaphore failed when sem_open was interrupted at call %ld (x%d): %s", k, burst, err ? p_error_get_message(err) : "");
+			else { v = semvalue(name); if (v != 5) viol("wrong-value", "semaphore re-created with value 5 has value %d", v); p_semaphore_take_ownership(c); p_semaphore_free(c); }
+			p_semaphore_free(s);     /* s refers to the old, already unlinked object */
+		}
 		p_error_free(err);
 		break; }
 	case W_SHM_OPEN: {
@@ -209,7 +230,17 @@ static void inj_case(int id, long k, int burst, uint64_t seed) {
 		a = p_shm_new(name, 256, P_SHM_ACCESS_READWRITE, &err);
 		if (w_injected(id) + w_injected(W_SEM_OPEN)) { st_inj_fired++; st_by_kind[id]++; }
 		if (!a) viol("failed", "p_shm_new failed when shm_open/sem_open were interrupted at call %ld (x%d): %s", k, burst, err ? p_error_get_message(err) : "");
-		else { p_shm_take_ownership(a); w_plan(W_SEM_WAIT, WM_AT, 1, burst, WK_EINTR, seed); cur = "p_shm_lock"; if (!p_shm_lock(a, NULL)) viol("returned-false", "p_shm_lock failed when sem_wait was interrupted"); else p_shm_unlock(a, NULL); p_shm_free(a); }
+		else {
+			PShm *a2;
+			w_reset(); cur = "p_shm_new(existing)";     /* second handle on the existing segment: shm_open and the lock semaphore's sem_open take their EEXIST paths */
+			w_plan(id, WM_AT, k, burst, WK_EINTR, seed); w_plan(W_SEM_OPEN, WM_AT, k, burst, WK_EINTR, seed);
+			p_error_free(err); err = NULL;
+			a2 = p_shm_new(name, 256, P_SHM_ACCESS_READWRITE, &err);
+			if (w_injected(id) + w_injected(W_SEM_OPEN)) { st_inj_fired++; st_by_kind[W_SEM_OPEN]++; }
+			w_reset();
+			if (!a2) viol("failed", "p_shm_new on an existing segment failed when shm_open/sem_open were interrupted at call %ld (x%d): %s", k, burst, err ? p_error_get_message(err) : "");
+			else p_shm_free(a2);
+			p_shm_take_ownership(a); w_plan(W_SEM_WAIT, WM_AT, 1, burst, WK_EINTR, seed); cur = "p_shm_lock"; if (!p_shm_lock(a, NULL)) viol("returned-false", "p_shm_lock failed when sem_wait was interrupted"); else p_shm_unlock(a, NULL); p_shm_free(a); }
 		p_error_free(err); err = NULL;
 		w_reset(); cur = "p_shm_buffer_new";
 		w_plan(id, WM_AT, k, burst, WK_EINTR, seed);
